@@ -83,6 +83,12 @@ LOCAL_KNOWN = {
     'crash:IndexError:expanders.py:expand_font': '`font: normal` (only normal keywords): tokens.pop() from an empty list',
     'var:plain-function': 'resolve_var: arguments.extend(None) for a var()-free function argument next to a var()',
     'var:cycle': 'resolve_var: unbounded recursion on cyclic custom properties (RecursionError)',
+    'crash:AttributeError:computed_values.py:length':
+        'text-decoration-thickness: auto | from-font validates to True (walrus precedence), length() then fails',
+    'crash:AttributeError:__init__.py:preprocess_declarations':
+        'a malformed :nth-child(2n+) selector raises AttributeError in tinycss2.nth, only SelectorError is caught',
+    'crash:RuntimeError:__init__.py:preprocess_stylesheet':
+        'a malformed :nth-child(+) selector raises RuntimeError (StopIteration in a generator) in tinycss2.nth',
 }
 LOCAL_HITS = {}
 
@@ -266,7 +272,7 @@ def build_grammar(run, reg):
     for n in reg['properties'] + reg['expanders']:
         cand = gen + [w for w in reg['words'].get(n, []) if w not in KEYWORDS] + tests
         cases.append({'fn': 'discover', 'name': n, 'candidates': cand})
-    outs = run_multi(cases)
+    outs = run_multi(cases, limit=240)
     pools = {}
     crashes = []
     for c, (st, o) in zip(cases, outs):
@@ -873,6 +879,8 @@ def sh_case(rng, P):
     if fam == 'flex':
         g, sh_ = P.pick(rng, 'flex-grow', True), P.pick(rng, 'flex-shrink', True)
         g, sh_ = g.lstrip('-') or '1', sh_.lstrip('-') or '1'
+        # a unitless zero written 0.0 / 0e0 is taken for a flex-basis (reported): the stream writes 0
+        g, sh_ = ['0' if float(x) == 0 else x for x in (g, sh_)]
         b = rng.choice([x for x in P.get('flex-basis', True) if not re.match(r'^[-+.\d]+$', x)] or ['auto'])
         form = rng.choice(['none', 'g', 'gs', 'b', 'gb', 'bg', 'gsb', 'bgs', 'auto', 'g0', 'zero'])
         text, longs = {
@@ -1132,7 +1140,7 @@ BAD_RULES = ['@foo bar;', '@foo {a:b}', 'div{color:}', 'div{:red}', 'p[{color:re
              '{}', '{color:red}', 'div{}', ';', '@;', '@{}', '#t{@media x{color:red}}', 'div,{color:red}',
              ',div{color:red}', 'div>{color:red}', '#t::first-line::x{color:red}', '#t:nth-child(){color:red}',
              '#t:nth-child(2n+){color:red}', '#t:not(){color:red}', '#{color:red}', '.{color:red}', '[=]{color:red}',
-             '#t{color:red;;;}', '@page :first:bogus{margin:0}', '@page{margin:1px 2px 3px 4px 5px}',
+             '#t{color:}', '@page :first:bogus{margin:0}', '#t:nth-child(+){color:red}', '@page{margin:1px 2px 3px 4px 5px}',
              '@font-face{font-family:x}', '@font-face{font-family:x;src:local()}', '@import "nonexistent.css" bogus;',
              '#t{--:x}', 'html|div{color:red}', '*|*|*{color:red}', '#t{width:1px !important !important}',
              '@media{', '}', ')', ']', '#t{color:rgb(1,2}', '@page{@top-left{content:"x"', '#t{"unterminated}']
@@ -1257,9 +1265,7 @@ def check(run):
         run.oblige('harness:registry', False, str(reg))
         return
     gr, crashes = build_grammar(run, reg)
-    for name, o in crashes[:3]:
-        fail(run, 'discovering the grammar of %s: %s' % (name, o), {'stream': 'discover', 'name': name, 'outcome': o},
-                 signature='crash:discover')
+    run.oblige('harness:grammar-discovery', not crashes, 'failed for %s' % (crashes[:3],))
     sizes = sorted(len(v) for v in gr.pools.values())
     run.stream_info('grammar-discovery', names=len(gr.names), empty_pools=[n for n in gr.names if not gr.pools[n]],
                     median_pool=sizes[len(sizes) // 2], total_accepted=sum(sizes),
@@ -1272,7 +1278,7 @@ def check(run):
                ('var', cases_var(run, rng, 8000 if thorough else 1500)),
                ('render', cases_render(rng, gr, 3000 if thorough else 500))]
     allc = [c for _, cs in streams for c in cs]
-    outs = run_multi(allc, limit=60)
+    outs = run_multi(allc, limit=240)
     res, k = {}, 0
     for name, cs in streams:
         res[name] = (cs, outs[k:k + len(cs)])
